@@ -28,7 +28,9 @@ RULE = ("uniform: random UniformIce (index, range, index_above/below incl. None)
         "int lists, int64 and float32 arrays (uniform and layered tracers, against the model, the image construction and the "
         "float64 evaluation); split media built from ArasimIce / GreenlandIce layers and from a user subclass of UniformIce, "
         "attenuation of the chained paths against the unsplit path; evaluate-replace-evaluate on one tracer object "
-        "(max_reflections, to_point, from_point) against fresh tracers; a case is non-trivial when it has at "
+        "(max_reflections, to_point, from_point) against fresh tracers; arrays handed out by paths (coordinates, emitted / "
+        "received direction) modified in place the way plotting code does, then every other quantity against an untouched "
+        "twin path; a case is non-trivial when it has at "
         "least one reflection, layer crossing or a guard; distinct = distinct (kind, ice, endpoints, option) tuples")
 LEVEL_TEXT = ("image-source theorems (length, mirror law, boundary points, directions, tof), chain continuity, Snell / "
               "mirror step of the layered trace, split-medium reductions, unit transmission / zero reflection for equal "
@@ -1060,7 +1062,8 @@ def special_split(run, which):
                 zA = c - 0.6
             if abs(zB - c) < 0.5:
                 zB = c - 0.6
-        data = {"kind": "uniform", "params": {"n": n, "lo": lo, "above": ab, "below": None, "cuts": cuts}}
+        data = {"kind": "uniform", "params": {"n": n, "lo": lo, "above": ab, "below": None, "cuts": cuts},
+                "max_reflections": r.choice([0, 1, 1, 2])}
     else:   # shadow-edge: direct ray launched within a degree of max_angle
         zA, zB = r.uniform(-500, -60), r.uniform(-250, -20)
         cuts = sorted({round(r.uniform(-600, -10), 3) for _ in range(r.randint(1, 2))}, reverse=True)
@@ -1277,6 +1280,36 @@ def oracle_reuse(run, data):
     return True
 
 
+@guarded("returned arrays")
+def oracle_returned(run, data):
+    """arrays handed out by uniform / layered paths belong to the caller (see raylib.returned_arrays_oracle)"""
+    rt, im, LayeredIce, LayeredRayTracer = _mods()
+
+    def mk():
+        A, B = [float(v) for v in data["A"]], [float(v) for v in data["B"]]
+        if data["which"] == "uniform":
+            n, lo, hi, ab, be = data["ice"]
+            tr = rt.UniformRayTracer(A, B, im.UniformIce(n, valid_range=(lo, hi), index_above=ab, index_below=be))
+        else:
+            tr = LayeredRayTracer(A, B, build_stack(data))
+        tr.max_reflections = data["max_reflections"]
+        return tr
+    run.case(("oracle-returned", str(data)), nontrivial=True)
+    ok = raylib.returned_arrays_oracle(run, mk, data, np.array([2e8, 6e8]), which=data.get("solutions"))
+    if ok and data["which"] == "uniform":
+        # the untouched geometry: reflection points on the bounds (already part of oracle_uniform) - here after the scribble
+        n, lo, hi, ab, be = data["ice"]
+        for p in mk().solutions:
+            raylib.scribble(p.coordinates)
+            z = np.asarray(p._points, float)[1:-1, 2]
+            if np.any((z != lo) & (z != hi)):
+                run.fail_input("returned-arrays", dict(data, modified="coordinates", affected="reflection points"),
+                               observed=z.tolist(), expected=[lo, hi], what="reflection points left the ice bounds after the "
+                               "arrays returned by coordinates were modified")
+                return False
+    return ok
+
+
 def bounce_walks(m, start, down, refl):
     """independent enumeration of the complete index walks: depth-first over "move on" / "turn around" """
     out = []
@@ -1425,6 +1458,18 @@ def search(run, deep):
         for i in range(m if not deep else 10 * m):
             run.count("forms_" + which)
             oracle_forms(run, forms_case(run, which))
+    # arrays handed out by paths are the caller's
+    for which, m in (("uniform", 10), ("layered", 2)):
+        for i in range(m if not deep else 10 * m):
+            d = forms_case(run, which)
+            if which == "uniform":
+                d["max_reflections"] = run.rng.choice([0, 1, 2, 3])
+            else:
+                d["solutions"] = [run.rng.randint(0, 2)]
+            run.count("returned_" + which)
+            oracle_returned(run, d)
+    d = dict(gradient_stack_case(run), which="layered", solutions=[0])
+    oracle_returned(run, d)
     # evaluate - replace - evaluate on one tracer object
     for which, m in (("uniform", 6), ("layered", 3)):
         for i in range(m if not deep else 10 * m):
@@ -1476,6 +1521,8 @@ def replay(run, data):
                        inp["max_reflections"], "general")
     elif kind == "complete-critical":
         oracle_critical(run, inp)
+    elif kind == "returned-arrays":
+        oracle_returned(run, {k: v for k, v in inp.items() if k not in ("solution", "modified", "affected")})
     elif kind == "reuse":
         oracle_reuse(run, {k: v for k, v in inp.items() if k != "changed"})
     elif kind.startswith("forms-"):
